@@ -16,6 +16,8 @@ TECHNIQUE = 'axis-tag dataflow, stride rule in polynomial normal form, structura
 
 def check(m, run):
     fi = m.func('operations.refine_knotvector')
+    from .. import skel_drivers as _sd
+    _sd.kir3(m, run, ('refine',))        # A5.4 on exact rational knots and symbolic control points equals the single insertions of its new knots
     oc.block_rules(m, run, fi, 'refine')
     oc.helper_alias_rules(m, run, 'helpers.knot_refinement', pu1=False)
     run.floor('AL1.no-shared-cells', 2, 'row duplication in A5.4')
